@@ -138,7 +138,7 @@ def rule_R3(ctx, f):
     if b:
         ctx.saw(b)
         bs = b.calls_to("MetricVecBuilder::build")
-        ins = b.calls_to("HashMap::insert")
+        ins = b.calls_to(["HashMap::insert", "VacantEntry::insert"])
         ok = len(bs) == 1 and len(ins) == 1
         ctx.ob(rid, "get_or_create_metric|shape", ok, "get_or_create_metric must build once and insert once (found %d/%d)" % (len(bs), len(ins)), site=b.raw["span"]["at"])
         if ok:
@@ -146,8 +146,14 @@ def rule_R3(ctx, f):
             ctx.ob(rid, "get_or_create_metric|build-args",
                    peel(bc.args[0]) == SELF_FIELD("new_metric") and peel(bc.args[1]) == SELF_FIELD("opts") and peel(bc.args[2]) == P3,
                    "build must receive self.opts and the requested label values unchanged (found %s)" % [show(a) for a in bc.args], site=bc.span)
-            ctx.ob(rid, "get_or_create_metric|insert-key", peel(ic.args[1]) == P2, "the child must be inserted under the given hash (found %s)" % show(ic.args[1]), site=ic.span)
-            ctx.ob(rid, "get_or_create_metric|insert-value", peel(ic.args[2]) == bc.result_term(), "the inserted child must be the built one (found %s)" % show(ic.args[2]), site=ic.span)
+            if ic.matches("VacantEntry::insert"):
+                # children.entry(hash) ... Vacant(e) => e.insert(child): the key is the entry's
+                ents = [c for c in b.calls_to("HashMap::entry") if c.result_term() in list(subterms(ic.args[0]))]
+                key_t, val_t = (ents[0].args[1] if len(ents) == 1 else None), ic.args[1]
+            else:
+                key_t, val_t = ic.args[1], ic.args[2]
+            ctx.ob(rid, "get_or_create_metric|insert-key", key_t is not None and peel(key_t) == P2, "the child must be inserted under the given hash (found %s)" % (show(key_t) if key_t else None), site=ic.span)
+            ctx.ob(rid, "get_or_create_metric|insert-value", peel(val_t) == bc.result_term(), "the inserted child must be the built one (found %s)" % show(val_t), site=ic.span)
             cont = try_continue_block(b, bc)
             ctx.ob("R4", "get_or_create_metric|build-error-inserts-nothing", cont is not None and b.dominates(cont, ic.bb),
                    "the `?` on build must dominate the insert (a failed build creates nothing)", site=ic.span)
